@@ -113,13 +113,14 @@ def history_case(arg):
         mod, names = c02, c02.NAMES
     runs = []
     inner = vp.Shard()
-    for root in ROOTS:
+    for nrun, root in enumerate(ROOTS):
         base = os.path.join(work, "h-%s-%d" % (kind, idx), root)
         os.makedirs(base)
-        mon = vp.Mon("layers")       # a fresh process per run
+        # a fresh process per run - started in different working directories, with source files of different age (1980, now, 2100)
+        mon = vp.Mon("layers", cwd=[None, base, "/proc"][nrun])
         snaps = []
         try:
-            mod.run_history(mon, base, "x", steps, names, inner, snapshots_out=snaps)
+            mod.run_history(mon, base, "x", steps, names, inner, snapshots_out=snaps, src_mtime=[315532800, None, 4102444800][nrun])
         except vp.ExecutorDied:
             snaps.append({b"<process died>": ("?",)})
         finally:
@@ -176,7 +177,7 @@ def rich_case(idx, seed, work, r):
 def phase_script(r):
     labels = [["k%d" % (i % 7), r.choice(tomlw.RND_STRINGS)] for i in range(12)]        # duplicated keys on purpose
     r.shuffle(labels)
-    procs = [{"type": "p%d" % i, "command": ["c%d" % i], "args": ["a"], "default": i == 0} for i in range(6)]
+    procs = [{"type": "p%d" % i, "command": ["c%d" % i], "args": ["a"], "default": i == 0, **({"wd": [".", "frontend", "", "../app"][i % 4]} if i % 3 else {})} for i in range(6)]
     procs += [{"type": "p%d" % i, "command": ["again-%d" % i], "args": [], "default": False} for i in (1, 4)]      # a process type defined twice
     groups = []
     for g in range(3):
@@ -215,7 +216,7 @@ def phase_case(arg):
     r = vp.rng(seed, "c20-phase", idx)
     script = phase_script(r)
     runs = []
-    for root in ROOTS:
+    for nrun, root in enumerate(ROOTS):
         lay = phase.Layout(os.path.join(work, "p-%d" % idx, root))
         lay.create()
         with open(os.path.join(lay.bp, "buildpack.toml"), "w") as f:
@@ -224,12 +225,15 @@ def phase_case(arg):
         with open(lay.plan, "w") as f:
             f.write("")
         snaps = []
-        st, marker, err = lay.run("detect", lay.detect_args(), lay.env(), script)
+        # (the three processes stand in different directories: the app directory as the lifecycle has it, the root, a sub-directory of the app)
+        os.makedirs(os.path.join(lay.app, "frontend"), exist_ok=True)
+        cwd = [lay.app, lay.root, os.path.join(lay.app, "frontend")][nrun]
+        st, marker, err = lay.run("detect", lay.detect_args(), lay.env(), script, cwd=cwd)
         snaps.append(vp.snapshot(lay.root, lambda rel: rel in (b"marker", b"dump.json", b"script.json") or rel.startswith(b"bp")))
         with open(lay.plan, "w") as f:
             # (names required more than once, by several buildpacks: the plan the build logic is shown lists them as the file does, in every process)
             f.write("".join('[[entries]]\nname = "%s"\n[entries.metadata]\nfrom = %d\n' % (n, k) for k, n in enumerate(["x", "node", "y", "node", "x", "node", "z", "y"])))
-        st2, marker2, err2 = lay.run("build", lay.build_args(), lay.env(), dict(script, dump=lay.dump))
+        st2, marker2, err2 = lay.run("build", lay.build_args(), lay.env(), dict(script, dump=lay.dump), cwd=cwd)
         snap = vp.snapshot(lay.layers)
         try:
             snap[b"<the buildpack plan the build logic was shown>"] = ("f", 0, json.dumps(json.load(open(lay.dump)).get("plan"), sort_keys=True).encode())
